@@ -556,7 +556,10 @@ def gen_native_op(rnd):
         lambda: ["clear", "dct"],
         lambda: ["set", "st", ["set", [_P(rnd) for _ in range(rnd.randint(0, 3))]]],
         lambda: ["add", "st", rnd.choice([_P(rnd), ["b", 0]])],
-        lambda: ["set", "i", rnd.choice([["b", rnd.randrange(2)], ["n", 5], _P(rnd)])],
+        lambda: ["set", "i", rnd.choice([["b", rnd.randrange(2)], ["n", 5], _P(rnd), ["idx", rnd.randrange(2)]])],
+        lambda: ["set", rnd.choice(["i", "eis", "tint"]) if False else "eis", rnd.choice([["idx", rnd.randrange(2)], ["b", 0], ["s", 0]])],
+        lambda: ["validate", rnd.choice(["i", "eis"]), ["idx", rnd.randrange(2)]],
+        lambda: ["set", "tint", ["t", [["idx", rnd.randrange(2)], _P(rnd)]]],
         lambda: ["set", "f", rnd.choice([["b", rnd.randrange(2)], ["n", 5], ["s", 0]])],
         lambda: ["set", "rng", rnd.choice([["b", rnd.randrange(2)], ["n", 0.5], _P(rnd)])],
         lambda: ["set", "s", rnd.choice([["s", rnd.randrange(2)], _P(rnd)])],
@@ -617,6 +620,8 @@ def native_corpus():
         ["set", "dct", ["d", [[P0, P1], [["b", 0], ["s", 1]]]]], ["setitem", "dct", P2, 0], ["clear", "dct"],
         ["set", "st", ["set", [P0, P1]]], ["add", "st", P2], ["set", "ro", P0], ["set", "ro", P1],
         ["set", "inst", ["leaf", P0]], ["set", "inst", P0], ["del", "tup"], ["del", "tup4"], ["gc"],
+        ["set", "i", ["idx", 0]], ["set", "i", ["idx", 1]], ["set", "eis", ["idx", 0]], ["validate", "i", ["idx", 1]],
+        ["set", "tint", ["t", [["idx", 0], P1]]], ["del", "i"], ["set", "i", ["n", 3]],
         ["set", "er2", ["fl", 0]], ["set", "er2", ["fl", 1]], ["set", "er2", ["fl", 2]], ["set", "er2", ["fl", 3]],
         ["set", "ers", ["fl", 0]], ["set", "ers", ["fl", 2]], ["set", "era", ["fl", 0]], ["set", "era", ["fl", 3]],
         ["validate", "er2", ["fl", 0]], ["validate", "era", ["fl", 0]], ["set", "ers", ["b", 0]],
